@@ -84,6 +84,18 @@ check("C04", "exploration",
       "that has a finally clause are not generated.",
       "bounded exhaustive enumeration of programs x all branch-decision vectors, path-in-graph oracle", "DESIGN.md §2 C04")
 
+check("C06", "exploration",
+      "Every method with <=5 (thorough 6) statement nodes over definitions of x (each writing a unique constant), uses of x, if, "
+      "if-else, while, for-in (nested <=2), break, continue, early return, with opaque conditions - 5460 methods / 12 k uses quick - "
+      "each an entry point of the real semantic pipeline. Because every definition writes a different constant, the value set the "
+      "analysis holds for x at a use names the definitions it treats as reaching. (i) soundness: on every decision vector in which "
+      "no loop body runs more than once, the value read at each use by the reference GIR interpreter is in the observed set; "
+      "(ii) no dead definition: observed set within the classical reaching-definitions fixpoint on the exported CFG; (iii) loop-free "
+      "methods: observed == classical.",
+      "Observed set = final P3 symbol/state space of the entry (what value consumers read), not the accumulated def-use edges. "
+      "Single variable, integer constants.",
+      "bounded exhaustive program enumeration x all decision vectors, dynamic reaching definitions and classical dataflow as oracles", "DESIGN.md §2 C06")
+
 check("C07", "exploration",
       "Complete product of call patterns: 17 callee kinds (direct, constructor, method, inherited method, method via self, callback "
       "parameter, lambda callback, returned function, function stored in variable / field / list / dict, recursion, mutual recursion, "
